@@ -788,3 +788,27 @@ Fixpoint grun (cf : cfg) (g : ghost) (l : list (ev * list out * option N)) : gho
 (* the environment has discharged everything it owes *)
 Definition discharged (g : ghost) : Prop :=
   g_dials g = [] /\ g_opens g = [] /\ forall x, In x (g_live g) -> snd x <= g_now g.
+
+(* ------------------------------------------------------------------ the bounded event channel
+
+   The model hands the user an unbounded list of events per step.  The implementation pushes
+   them through a bounded mpsc channel: `event_tx.send(..).await` parks the event loop in the
+   middle of a handler while the channel is full and resumes when the user has taken an event.
+   This little relay says why that is the same thing: whatever the interleaving of pushes (only
+   when there is room) and pops, nothing is lost, duplicated or reordered. *)
+Record relay := mkRelay { rl_pending : list out; rl_queue : list out; rl_delivered : list out }.
+Inductive rmove := RPush | RPop.
+Definition relay_step (cap : nat) (st : relay) (m : rmove) : relay :=
+  match m with
+  | RPush => match rl_pending st with
+             | x :: p => if Nat.ltb (length (rl_queue st)) cap
+                         then mkRelay p (rl_queue st ++ [x]) (rl_delivered st) else st
+             | [] => st
+             end
+  | RPop => match rl_queue st with
+            | x :: q => mkRelay (rl_pending st) q (rl_delivered st ++ [x])
+            | [] => st
+            end
+  end.
+Definition relay_run (cap : nat) (o : list out) (ms : list rmove) : relay :=
+  fold_left (relay_step cap) ms (mkRelay o [] []).
